@@ -86,11 +86,20 @@ SEEDS = {
            "base position + distance == 12 (F#+1, B+2, E+3, A+4, D+5, G+6): IndexError instead of pitch class 1"),
  "C16-c": ("C16", "Sequence.copy rewritten as three branches keyed on view freshness; the abs-only branch builds the copy with `self.__class__(absolute_sequence=self.abs)` (no .copy())",
            "a copy taken while the relative view is stale (after an absolute-side operation), followed by another absolute-side operation on either side"),
+ "C08-c": ("C08", "split: the remainder guard after the capacity loop is `len(working_memory) > 1` instead of `> 0`; a remainder of exactly one message is discarded",
+           "a trailing rest reaching past the last boundary with nothing sounding (only the carried WAIT is left): the silence after the last boundary disappears"),
+ "C06-c": ("C06", "get_message_pairings: the leading `self.normalise_absolute()` removed; pairing depends on the list order left by add_message (time only)",
+           "a note ending on the tick where the next note of the same channel and pitch starts, the later note-on inserted before the earlier note-off (all note-ons added first)"),
+ "C09-c": ("C09", "sequences_split_bars: bar length `int(PPQN * n / d) * 4` -- the truncation happens before the multiplication by 4",
+           "odd-numerator /16 signatures and most /32 ones (3/16: 16 ticks sliced instead of 18): Bar pads each bar back, the cursor drifts, one bar too many, later keys at the wrong bar"),
+ "C01-c": ("C01", "Sequence.set_channel: `self.invalidate_abs()` dropped (the tokeniser labels track i with channel i through this wrapper and then merges the absolute views)",
+           "num_tracks >= 2 and input sequences whose absolute view is live when tokenise runs (built with add_absolute_message, or returned by detokenise): every note ends up in track 0"),
  "C17-a": ("C17", "equals: the tick comparison moved into the NOTE_ON branch; time and key signatures are compared by value only",
            "two sequences identical except for the tick of one signature, with no compared event of the channel between the old and the new tick"),
 }
 
 INITIALLY_MISSED = {
+ "C01-c": "caught from the start by C04 (TS3) and C18 (VIEW) -- the same edit as seed C18-b; C01's own check missed it. A table of the Sequence-level operations each property's anchor code goes through (props/common.py) now adds VIEW obligations to C01, C03, C09, C10, C12, C13, C16, C17",
  "C20-b": "the first version aborted with ANALYSIS-ERROR (exit 2): the exhaustive evaluator did not know local aliases of the circle list, len(), augmented assignments; it was extended and now reports VS-LAND with the six failing residue pairs",
  "C15-b": "caught from the start by C07 (SIG); C15's own check missed it because it only shared the STACK rules of the normaliser; C15 now includes the SIG rules, and SIG names the derived-quantity comparison explicitly",
  "C03-b": "missed by the first version of CLOSE (it only demanded that a bar holding a note is closed); the converse obligation was added: in the state (bar time 0, nothing emitted in the current bar) the closing guard must be definitely false",
